@@ -92,6 +92,8 @@ def histories(tier, seed):
             for _ in range(7):
                 k = rng.choice(list(SETTINGS))
                 h.append(R(k, rng.random() < 0.5))
+                if k == "X":      # settings no build accepts (a target spacing longer than the leg): refused here as in a fresh build
+                    h[-1]["expect_refusal"] = True
                 if rng.random() < 0.7:
                     h.append(dict(op="calculateRZ"))
                 if rng.random() < 0.3:
